@@ -164,6 +164,38 @@ func ruleR05abc(c *Ctx) {
 			continue
 		}
 		name := fnName(fn)
+		// the chaining may live in a helper of the commander that stores the new head and returns it
+		// (`chainedLog := commander.chainLog(logBuilder(nextTXID))`)
+		var viaHelper *ssa.Call
+		var helperParamArg = map[*ssa.Parameter]ssa.Value{}
+		if storedLog == nil {
+			if call, ok := appendArg.(*ssa.Call); ok {
+				if h := staticCallee(call); h != nil && fnPkgPath(origin(h)) == pkgCommand && len(h.Blocks) > 0 {
+					var hs ssa.Value
+					for _, b := range h.Blocks {
+						for _, ins := range b.Instrs {
+							if v, base, ok := storeToField(ins, m.fLastLog); ok && !freshBase(base) {
+								hs = v
+							}
+						}
+					}
+					returnsIt := hs != nil
+					for _, b := range h.Blocks {
+						if r, ok := b.Instrs[len(b.Instrs)-1].(*ssa.Return); ok && (len(r.Results) != 1 || r.Results[0] != hs) {
+							returnsIt = false
+						}
+					}
+					if returnsIt {
+						storedLog, appendArg, viaHelper = hs, hs, call
+						for i, p := range h.Params {
+							if i < len(call.Call.Args) {
+								helperParamArg[p] = call.Call.Args[i]
+							}
+						}
+					}
+				}
+			}
+		}
 		c.check(storedLog != nil && storedLog == appendArg, rule, name+":appended-value-is-chain-head", appendPos, "the value handed to the batcher is the value stored in lastLog", "the value handed to the batcher is not the value stored as Commander.lastLog")
 		// chain head = X.ChainLog(load lastLog)
 		chained := false
@@ -173,6 +205,9 @@ func ruleR05abc(c *Ctx) {
 				chained = true
 			}
 			builderCall, _ = call.Call.Args[0].(*ssa.Call)
+			if p, isParam := call.Call.Args[0].(*ssa.Parameter); isParam && viaHelper != nil {
+				builderCall, _ = helperParamArg[p].(*ssa.Call)
+			}
 		}
 		c.check(chained, rule, name+":chained-on-current-head", appendPos, "the new head is ChainLog(<current lastLog>)", "the new chain head is not computed as ChainLog(commander.lastLog)")
 		if storedTx != nil {
